@@ -40,10 +40,12 @@ def random_breaks(breaks: int, n: int) -> A[i8, 2]:
         assert_(points[where_rank1(n)] == n)
 
 
-# The label / option enumerators are small pure integer functions on (ploidy, 2) label matrices.  Their
-# contracts below are ASSUMED (trusted=True): shapes and ranges only.  They are checked at run time on the
-# real functions for EVERY label matrix up to ploidy 5 (rt/r_C01.py check_option_functions), and their
-# combinatorial meaning (neighbourhood symmetry) is what the exhaustive detailed-balance check decides.
+# The label / option enumerators are small pure integer functions on (ploidy, 2) label matrices.  The two counting
+# functions (*_n_options) are PROVED against recursive counting specs (RNOPT, DNOPT).  The labelling function and the
+# two option enumerators stay ASSUMED (trusted=True): shapes, ranges and "every option has a way back" (its own option
+# count is >= 1).  They are checked at run time on the real functions for every label matrix with entries in [0, P),
+# P <= 3 (thorough: 4), and seeded ones up to ploidy 6 (rt/r_C01.py check_option_functions); their combinatorial
+# meaning (neighbourhood symmetry) is also what the exhaustive detailed-balance check decides.
 
 
 @contract("mchap.assemble.structural.haplotype_segment_labels", trusted=True, props=["C01", "C09"])
@@ -53,39 +55,186 @@ def haplotype_segment_labels(genotype: A[i1, 2], interval: Opt[A[i8, 1]]) -> A[i
     ensures(forall(0, len(genotype), lambda h: 0 <= result[h, 0] and result[h, 0] < len(genotype) and 0 <= result[h, 1] and result[h, 1] < len(genotype)))
 
 
-@contract("mchap.assemble.structural.recombination_step_options", trusted=True, props=["C01", "C09"])
+@spec_inline
+def RECSW(O: A[int, 2], L: A[int, 2], P: int, a: int, b: int) -> bool:
+    """O is L with the interval labels (column 0) of the haplotypes a < b exchanged; a and b differ inside and outside the interval"""
+    return 0 <= a and a < b and b < P and L[a, 0] != L[b, 0] and L[a, 1] != L[b, 1] and forall(0, P, lambda h: O[h, 1] == L[h, 1] and O[h, 0] == ite(h == a, L[b, 0], ite(h == b, L[a, 0], L[h, 0])))
+
+
+@contract("mchap.assemble.structural.recombination_step_options", machine_ints=True, props=["C01", "C09"])
 def recombination_step_options(labels: A[i1, 2]) -> A[i1, 3]:
-    requires(labels.shape[1] == 2)
-    ensures(result.shape[1] == len(labels), result.shape[2] == 2)
+    requires(labels.shape[1] == 2, len(labels) <= 127)
+    requires(forall(0, len(labels), lambda h: 0 <= labels[h, 0] and labels[h, 0] < len(labels)))
+    ensures(result.shape[1] == len(labels), result.shape[2] == 2, len(result) == RNOPT(labels, len(labels)))
     ensures(forall(lambda i, h: implies(0 <= i and i < len(result) and 0 <= h and h < len(labels), 0 <= result[i, h, 0] and result[i, h, 0] < len(labels))))
+    # every option exchanges the interval segments of two haplotypes that differ inside and outside the interval ...
+    ensures(forall(0, len(result), lambda i: exists(lambda a, b: RECSW(result[i], labels, len(labels), a, b), witness=(WA[i], WB[i]))))
+    # ... and (lemma_recombination_reversible) can be undone: the reverse proposal count is at least one
+    ensures(forall(0, len(result), lambda i: RNOPT(result[i], len(labels)) >= 1))
+    with defs():
+        P = len(labels)
+    with before_call("comb"):
+        lemma_binom2(P)
+        lemma_pairs_binom(P)
+        lemma_binom_nonneg(P, 2)
+    with loop(0):
+        invariant(0 <= i, i <= max_options, max_options == binom(P, 2), ploidy == P, options.shape == (max_options, P, 2))
+        invariant(forall(lambda o, h, c: implies(0 <= o and o < i and 0 <= h and h < P and 0 <= c and c < 2, options[o, h, c] == labels[h, c])))
+    with loop(1):
+        invariant(0 <= j, j <= P)
+        invariant(forall(lambda o, h, c: implies(0 <= o and o < i and 0 <= h and h < P and 0 <= c and c < 2, options[o, h, c] == labels[h, c])))
+        invariant(forall(lambda h, c: implies(0 <= h and h < j and 0 <= c and c < 2, options[i, h, c] == labels[h, c])))
+    with loop(2):
+        invariant(0 <= k, k <= 2)
+        invariant(forall(lambda o, h, c: implies(0 <= o and o < i and 0 <= h and h < P and 0 <= c and c < 2, options[o, h, c] == labels[h, c])))
+        invariant(forall(lambda h, c: implies(0 <= h and h < j and 0 <= c and c < 2, options[i, h, c] == labels[h, c])))
+        invariant(forall(0, k, lambda c: options[i, j, c] == labels[j, c]))
+    with after_stmt("opt = 0"):
+        unfold(RCNT(labels, P, 0), PAIRS(P, 0))
+        WA = arr1(lambda t: 0)
+        WB = arr1(lambda t: 0)
+    with loop(3):
+        invariant(0 <= h_0, h_0 <= P, opt == RCNT(labels, P, h_0), 0 <= opt, opt <= PAIRS(P, h_0), PAIRS(P, h_0) <= PAIRS(P, P), max_options == PAIRS(P, P), options.shape == (max_options, P, 2))
+        invariant(forall(0, P, lambda a: dosage[a] == DOSE(labels, a, 0, 2, P)))
+        invariant(forall(lambda o, h, c: implies(opt <= o and o < max_options and 0 <= h and h < P and 0 <= c and c < 2, options[o, h, c] == labels[h, c])))
+        invariant(forall(0, opt, lambda o: RECSW(options[o], labels, P, WA[o], WB[o])))
+        with head():
+            unfold(RCNT(labels, P, h_0 + 1), PAIRS(P, h_0 + 1))
+            unfold(RCIN(labels, P, h_0, h_0 + 1))
+            lemma_rcin_le(labels, P, h_0, P)
+            lemma_pairs_closed(P, h_0)
+            lemma_pairs_closed(P, h_0 + 1)
+            lemma_pairs_closed(P, P)
+    with loop(4):
+        invariant(h_0 + 1 <= h_1, h_1 <= P, opt == RCNT(labels, P, h_0) + RCIN(labels, P, h_0, h_1), 0 <= opt, RCIN(labels, P, h_0, h_1) <= h_1 - h_0 - 1, opt < max_options or h_1 == P, options.shape == (max_options, P, 2))
+        invariant(forall(lambda o, h, c: implies(opt <= o and o < max_options and 0 <= h and h < P and 0 <= c and c < 2, options[o, h, c] == labels[h, c])))
+        invariant(forall(0, opt, lambda o: RECSW(options[o], labels, P, WA[o], WB[o])))
+        with head():
+            unfold(RCIN(labels, P, h_0, h_1 + 1))
+            lemma_rcin_le(labels, P, h_0, h_1 + 1)
+            lemma_rcin_le(labels, P, h_0, h_1)
+    with before_stmt("opt += 1"):
+        WA = arr1(lambda t: ite(t == opt, h_0, WA[t]))
+        WB = arr1(lambda t: ite(t == opt, h_1, WB[t]))
+    with before_stmt("return options[0:opt]"):
+        unfold(RNOPT(labels, P))
+        with forall_intro(o, 0, opt, RNOPT(options[o], P) >= 1):
+            lemma_recombination_reversible(labels, options[o], P, WA[o], WB[o])
 
 
 @contract("mchap.assemble.structural.dosage_step_options", trusted=True, props=["C01", "C09"])
 def dosage_step_options(labels: A[i1, 2]) -> A[i1, 3]:
     requires(labels.shape[1] == 2)
     ensures(result.shape[1] == len(labels), result.shape[2] == 2)
+    ensures(forall(0, len(result), lambda i: DNOPT(result[i], len(labels)) >= 1))
     ensures(forall(lambda i, h: implies(0 <= i and i < len(result) and 0 <= h and h < len(labels), 0 <= result[i, h, 0] and result[i, h, 0] < len(labels))))
 
 
-@spec_abstract
+@spec
+def RCIN(L: A[int, 2], P: int, h0: int, m: int) -> int:
+    """recombination partners of h0 among the haplotypes h0 < h1 < m: first copies that differ from h0 both inside and outside the interval"""
+    decreases(m)
+    if m <= h0 + 1:
+        return 0
+    return RCIN(L, P, h0, m - 1) + ite(DOSE(L, m - 1, 0, 2, P) != 0 and L[h0, 0] != L[m - 1, 0] and L[h0, 1] != L[m - 1, 1], 1, 0)
+
+
+@spec
+def RCNT(L: A[int, 2], P: int, k: int) -> int:
+    decreases(k)
+    if k <= 0:
+        return 0
+    return RCNT(L, P, k - 1) + ite(DOSE(L, k - 1, 0, 2, P) != 0, RCIN(L, P, k - 1, P), 0)
+
+
+@spec
 def RNOPT(labels: A[int, 2], P: int) -> int:
-    """number of recombination options of a label matrix (abstract: the result of the assumed helper)"""
+    """number of recombination options of a label matrix: unordered pairs of distinct haplotypes (first copies) that
+    differ both inside and outside the interval"""
+    return RCNT(labels, P, P)
 
 
-@spec_abstract
+@spec
+def DCIN(L: A[int, 2], P: int, h0: int, m: int) -> int:
+    """donors for h0 among the haplotypes h1 < m: first copies of a segment different from h0's"""
+    decreases(m)
+    if m <= 0:
+        return 0
+    return DCIN(L, P, h0, m - 1) + ite(DOSE(L, m - 1, 0, 1, P) != 0 and L[h0, 0] != L[m - 1, 0], 1, 0)
+
+
+@spec
+def DCNT(L: A[int, 2], P: int, k: int) -> int:
+    decreases(k)
+    if k <= 0:
+        return 0
+    return DCNT(L, P, k - 1) + ite(DOSE(L, k - 1, 0, 2, P) != 0 and DOSE(L, k - 1, 0, 1, P) != 1, DCIN(L, P, k - 1, P), 0)
+
+
+@spec
 def DNOPT(labels: A[int, 2], P: int) -> int:
-    """number of dosage-swap options of a label matrix (abstract: the result of the assumed helper)"""
+    """number of dosage-swap options of a label matrix: (receiver, donor segment) pairs -- the receiver a first copy of a
+    haplotype whose segment is not the only copy of that segment, the donor the first copy of a different segment"""
+    return DCNT(labels, P, P)
 
 
-@contract("mchap.assemble.structural.recombination_step_n_options", trusted=True, props=["C01", "C09"])
+@lemma(shared=True)
+def lemma_neq_ext(G: A[int, 2], H: A[int, 2], h: int, lo: int, hi: int, n: int):
+    """NEQ reads the columns [lo, hi) only"""
+    requires(forall(lambda x, c: implies(0 <= x and lo <= c and c < hi, G[x, c] == H[x, c])), h >= 0)
+    ensures(NEQ(G, h, lo, hi, n) == NEQ(H, h, lo, hi, n))
+    decreases(n)
+    unfold(NEQ(G, h, lo, hi, n), NEQ(H, h, lo, hi, n))
+    if n > 0:
+        lemma_neq_ext(G, H, h, lo, hi, n - 1)
+
+
+@contract("mchap.assemble.structural.recombination_step_n_options", machine_ints=True, props=["C01", "C09"])
 def recombination_step_n_options(labels: A[i1, 2]) -> int:
-    # at least one way back: called on an option produced from the current labels
-    ensures(result >= 1, result <= 2 ** 20, result == RNOPT(labels, len(labels)))
+    requires(len(labels) <= 127, labels.shape[1] == 2)
+    ensures(result == RNOPT(labels, len(labels)), 0 <= result, result <= 2 ** 20)
+    with defs():
+        P = len(labels)
+    with loop(0):
+        invariant(0 <= h_0, h_0 <= P, ploidy == P, len(dosage) == P, n == RCNT(labels, P, h_0), 0 <= n, n <= 127 * h_0)
+        invariant(forall(0, P, lambda a: dosage[a] == DOSE(labels, a, 0, 2, P)))
+        with head():
+            unfold(RCNT(labels, P, h_0 + 1))
+            unfold(RCIN(labels, P, h_0, h_0 + 1))
+    with loop(1):
+        invariant(h_0 + 1 <= h_1, h_1 <= P, n == RCNT(labels, P, h_0) + RCIN(labels, P, h_0, h_1), 0 <= n, n <= 127 * h_0 + (h_1 - h_0 - 1))
+        with head():
+            unfold(RCIN(labels, P, h_0, h_1 + 1))
+    with after_stmt("n = 0"):
+        unfold(RCNT(labels, P, 0))
+    with before_stmt("return n"):
+        unfold(RNOPT(labels, P))
 
 
-@contract("mchap.assemble.structural.dosage_step_n_options", trusted=True, props=["C01", "C09"])
+@contract("mchap.assemble.structural.dosage_step_n_options", machine_ints=True, props=["C01", "C09"])
 def dosage_step_n_options(labels: A[i1, 2]) -> int:
-    ensures(result >= 1, result <= 2 ** 20, result == DNOPT(labels, len(labels)))
+    requires(len(labels) <= 127, labels.shape[1] == 2)
+    ensures(result == DNOPT(labels, len(labels)), 0 <= result, result <= 2 ** 20)
+    with defs():
+        P = len(labels)
+    with after_call("get_haplotype_dosage", 1):
+        with forall_intro(a, 0, P, segment_dosage[a] == DOSE(labels, a, 0, 1, P)):
+            lemma_neq_ext(get_haplotype_dosage_arg_genotype, labels, a, 0, 1, a)
+            lemma_neq_ext(get_haplotype_dosage_arg_genotype, labels, a, 0, 1, P)
+    with loop(0):
+        invariant(0 <= h_0, h_0 <= P, ploidy == P, n == DCNT(labels, P, h_0), 0 <= n, n <= 127 * h_0)
+        invariant(forall(0, P, lambda a: haplotype_dosage[a] == DOSE(labels, a, 0, 2, P)), forall(0, P, lambda a: segment_dosage[a] == DOSE(labels, a, 0, 1, P)))
+        with head():
+            unfold(DCNT(labels, P, h_0 + 1))
+            unfold(DCIN(labels, P, h_0, 0))
+    with loop(1):
+        invariant(0 <= h_1, h_1 <= P, n == DCNT(labels, P, h_0) + DCIN(labels, P, h_0, h_1), 0 <= n, n <= 127 * h_0 + h_1)
+        with head():
+            unfold(DCIN(labels, P, h_0, h_1 + 1))
+    with after_stmt("n = 0"):
+        unfold(DCNT(labels, P, 0))
+    with before_stmt("return n"):
+        unfold(DNOPT(labels, P))
 
 
 @spec
